@@ -321,6 +321,8 @@ func (r *c08Run) run() {
 	for step := 0; step < r.spec.Steps && r.res.Inconclusive == ""; step++ {
 		r.lastMixed = ""
 		switch x := r.rng.IntN(100); {
+		case x < 4:
+			r.convertCoinToSpecial()
 		case x < 22:
 			r.convertCoin()
 		case x < 44:
@@ -363,6 +365,42 @@ func (r *c08Run) convertCoin() {
 	r.logf("convert-coin %s %s %s->%s: %s", t.Symbol, amt, from.Label, to.Label, short(res.ErrString()))
 	b1, e1 := r.holdingsAll(t)
 	r.judgeConversion("convert-coin", t, res.OK(), amt, from.Label, to.Label, b0, e0, b1, e1, true)
+}
+
+// convertCoinToSpecial: the receiver of a conversion is a module account (the erc20 module that holds the
+// escrow of externally-owned pairs among them) or the token contract itself. Refused without effect, or
+// credited in full; the books are checked by the caller after the step.
+func (r *c08Run) convertCoinToSpecial() {
+	c := r.e.C
+	t, from := r.tok(), r.usr()
+	bal := c.Balance(c.Ctx, from.Acc(), t.Base)
+	amt := bal.QuoRaw(int64(3 + r.rng.IntN(9)))
+	if t.Kind == fix.KindFX {
+		amt = sdkmath.NewInt(int64(1 + r.rng.IntN(1_000_000)))
+	}
+	if !amt.IsPositive() {
+		return
+	}
+	names := []string{erc20types.ModuleName, r.e.B.Name, "fee_collector", "distribution", "token-contract"}
+	name := names[r.rng.IntN(len(names))]
+	to := common.BytesToAddress(chain.ModuleAddr(name))
+	if name == "token-contract" {
+		to = t.ERC20
+	}
+	r.holders[to] = "special-" + name
+	e0 := c.ERC20Balance(c.Ctx, t.ERC20, to)
+	b0 := c.Balance(c.Ctx, from.Acc(), t.Base)
+	res := c.Msg(&erc20types.MsgConvertCoin{Coin: sdk.NewCoin(t.Base, amt), Receiver: to.Hex(), Sender: from.Bech32()})
+	r.logf("convert-coin %s %s %s->%s: %s", t.Symbol, amt, from.Label, name, short(res.ErrString()))
+	r.res.Count("conversions_to_special_receivers", 1)
+	got := new(big.Int).Sub(c.ERC20Balance(c.Ctx, t.ERC20, to), e0)
+	paid := b0.Sub(c.Balance(c.Ctx, from.Acc(), t.Base))
+	switch {
+	case !res.OK() && (got.Sign() != 0 || !paid.IsZero()):
+		r.res.Violate("C08/refused-conversion-moved-value", "convert-coin of %s %s to %s was refused but the sender paid %s and the receiver's ERC-20 balance changed by %s", amt, t.Symbol, name, paid, got)
+	case res.OK() && (got.Cmp(amt.BigInt()) != 0 || !paid.Equal(amt)):
+		r.res.Violate("C08/conversion-effect/special-receiver", "convert-coin of %s %s to %s (%s) was accepted: the sender paid %s, the receiver's ERC-20 balance changed by %s", amt, t.Symbol, name, to.Hex(), paid, got)
+	}
 }
 
 func (r *c08Run) convertERC20() {
@@ -670,6 +708,11 @@ func (r *c08Run) targetedProbes() {
 // conversions of more than the holder owns, in both forms; the books are checked after each.
 func (r *c08Run) softFailProbe() {
 	e, c := r.e, r.e.C
+	// (the token also exists on the external chain, so that it can be sent out through the precompile)
+	var aliases []string
+	if d, err := e.B.AddBridgeToken(fix.TokenAddr(c.Cfg.Seed, "soft-ext", 0), "SOFT token", "SOFT", 18); err == nil {
+		aliases = []string{d}
+	}
 	ctx := c.Branch()
 	er := c.EthTxOn(ctx, e.Deployer, nil, chain.InitCode(evmasm.SoftFailToken("SOFT")), nil, 0)
 	if er.Failed() {
@@ -680,7 +723,7 @@ func (r *c08Run) softFailProbe() {
 	if er := c.EthTxOn(ctx, e.Deployer, &tok, mint, nil, 0); er.Failed() {
 		return
 	}
-	if res := c.MsgOn(ctx, &erc20types.MsgRegisterERC20{Authority: chain.GovAuthority(), Erc20Address: tok.Hex()}); !res.OK() {
+	if res := c.MsgOn(ctx, &erc20types.MsgRegisterERC20{Authority: chain.GovAuthority(), Erc20Address: tok.Hex(), Aliases: aliases}); !res.OK() {
 		r.logf("soft-fail token not registrable: %s", res.ErrString())
 		return
 	}
@@ -698,6 +741,23 @@ func (r *c08Run) softFailProbe() {
 			r.res.Violate("C08/soft-failing-token/conversion-outcome", "%s", what)
 		}
 		r.checkBooksOn(ctx, what)
+	}
+	// sending it out through the precompile: the token's transferFrom answers false (it implements none), so
+	// nobody has paid and the call has to fail
+	if len(aliases) > 0 {
+		pc := fix.PrecompileCrosschain()
+		var target [32]byte
+		copy(target[:], e.B.Name)
+		for _, who := range []chain.Key{e.Other, e.Caller} {
+			er := c.EthTxOn(ctx, who, &pc, fix.PackCrosschain("crossChain", tok, fix.ExtAddr(e.B.Name, e.Other.Hex()), big.NewInt(300), big.NewInt(1), target, ""), nil, 3_000_000)
+			what := fmt.Sprintf("crossChain of 301 of a token whose transferFrom returns false, by %s -> failed=%v %s", who.Label, er.Failed(), short(er.VmError()))
+			r.logf(what)
+			r.res.Count("soft_fail_crosschain_calls", 1)
+			if !er.Failed() {
+				r.res.Violate("C08/soft-failing-token/crosschain-accepted", "%s", what)
+			}
+			r.checkBooksOn(ctx, what)
+		}
 	}
 }
 
